@@ -198,6 +198,11 @@ def run(chk, prog):
     chk.check(not missing, "R5", A.loc(mainf, fb), "the final block appends to everything the loop block appends to (loop %s; final %s)" % (la, fa), "final:missing-appends:%s" % missing)
     fargs = [A.show(y["args"][2]) for y in A.walk(fb["then"]) if y.get("k") == "CXXMemberCallExpr" and (y.get("callee") or "") == "vfps::HDF5File::append" and len(y.get("args", [])) == 3]
     chk.check(fargs and all("All" in t for t in fargs), "R5", A.loc(mainf, fb), "the final record includes the phase space (AppendType::All)", "final:append-type:%s" % fargs)
+    # "one final record for the state reached": the final block is the loop's output block applied to the state at the interrupt --
+    # same refresh sequence, and the time written is the step actually reached (decided under C10 R2/R4; re-evaluated here; the staleness
+    # of a record written right after a renormalising step is the known finding F6 of C10 and is not repeated under this property)
+    from .common import reeval
+    reeval(chk, prog, "C10", lambda i: i["rule"] in ("R2", "R4"), "R5", "R5-final-record", 4)
     # ---- R6 -------------------------------------------------------------------------------------
     if sigs:
         sline = sigs[0][1]["line"]
